@@ -248,6 +248,9 @@ def jobs(tier, seed):
     gsrc = '#include "verif_sandbox.hpp"\nusing S = B32G;\n#include "C10_kernels.inc"\n'
     out.append(Job("C02_B32G_grant", gsrc, [dict(name="B32G grant %s: a refused grant never wraps the raw buffer address" % tag, fn=C10.check_grant, kw=dict(tag=tag, esz=e, grantable=True))
                                             for tag, e in (("char", 1), ("short", 2))], native=False))
+    from specs import C12
+    out.append(Job("C02_BM_cb_stored", '#include "C12_bm.inc"\n', [dict(name="BM callback owner stored into sandbox memory: the slot holds the entry point, not the application address",
+                                                                      fn=C12.check_bm_stored, unwind=200)], native=False))
     lsrc = '#include "verif_sandbox.hpp"\nusing S = B32L;\n#include "C02_life.inc"\n'
     for k in ("k_life_accept", "k_life_assign", "k_life_assignvol"):
         out.append(Job("C02_B32L_" + k, lsrc, [dict(name="B32L %s phase=%d" % (k, ph), fn=check_life, kw=dict(k=k, phase=ph)) for ph in (0, 1, 2)], native=False))
